@@ -250,8 +250,9 @@ def main(argv=None):
             checker_errors.append(core.Obligation(f"{pid}/<family {name}>", [pid], "family", [], None, note=msg, status="family_error"))
         else:
             undecided.append(core.Obligation(f"{pid}/<family {name}>", [pid], "family", [], None, note=("the contract's model raised on this tree (family translatable at baseline): " if kind == "error" else "") + msg, status="untranslatable"))
+    inapplicable = any(ob.kind == "applicability" and ob.status == "unknown" for ob in obs)
     for oid in missing:
-        if not any(u.oid.startswith(f"{pid}/<family") for u in undecided) and not fam_errors:
+        if not any(u.oid.startswith(f"{pid}/<family") for u in undecided) and not fam_errors and not inapplicable:
             checker_errors.append(core.Obligation(oid, [pid], "missing", [], None, note="obligation listed in contracts/baseline.json was not generated", status="missing"))
         else:
             undecided.append(core.Obligation(oid, [pid], "missing", [], None, note="not generated (family untranslatable on this tree)", status="missing"))
